@@ -73,7 +73,16 @@ def draw_header(ch):
 def draw_data_len(ch, read_size=None, allow_max=True, cap=None):
     """Data-field length with atoms at the interesting sizes. 0-draw -> 1 byte.
     cap: upper bound used when the run reads byte-by-byte (keeps the run cheap)."""
-    kind = ch.weighted([(6, "tiny"), (4, "small"), (2, "rs"), (2, "mid"), (1, "max")], "dlen_kind")
+    kind = ch.weighted([(6, "tiny"), (4, "small"), (2, "rs"), (2, "mid"), (1, "max"), (2, "pow2")], "dlen_kind")
+    if kind == "pow2":
+        # data-field or whole-packet lengths around powers of two (length-field bit patterns 0x00FF/0x0100, 0x0FFF/0x1000,
+        # 0x7FFF/0x8000 ...)
+        top = 16 if (cap is None and allow_max) else (15 if cap is None else max(3, cap.bit_length() - 1))
+        e = 3 + ch.draw(max(1, top - 2), "p2_exp")
+        d = ch.pick((0, -1, 1, -6, -7, -5), "p2_delta")
+        n = (1 << e) + d
+        hi = 65536 if cap is None else cap
+        return max(1, min(hi, n))
     if cap is not None:
         if kind == "tiny":
             return ch.pick((1, 2, 6, 7, 3, 5, 8), "dlen")
@@ -97,6 +106,13 @@ def draw_data_len(ch, read_size=None, allow_max=True, cap=None):
 
 
 def draw_packet(ch, read_size=None, allow_max=True, cap=None):
+    # the two all-same-bit headers are legal packets: 7 zero bytes (version 0, APID 0, CONTINUATION, count 0, one data
+    # byte) and, when maximum-size packets are allowed, FF FF FF FF FF FF + 65536 data bytes
+    special = ch.weighted([(58, None), (1, "zeros"), (1, "ones")], "special_pkt")
+    if special == "zeros":
+        return bytes(7)
+    if special == "ones" and allow_max and cap is None:
+        return b"\xff" * 6 + payload(ch.draw(1 << 16, "ones_payload"), 65536)
     hdr = draw_header(ch)
     n = draw_data_len(ch, read_size, allow_max, cap)
     sub = ch.draw(1 << 32, "payload")
